@@ -201,13 +201,18 @@ func codeFromText(t string) int {
 
 // RunScript executes source text with a fresh interpreter.
 func RunScript(src string, inputs map[string]r.Element) Outcome {
+	return RunScriptLibs(src, inputs, Libs())
+}
+
+// RunScriptLibs - same, with an explicit library list
+func RunScriptLibs(src string, inputs map[string]r.Element, libs []*r.Library) Outcome {
 	InstallDisplay()
 	mu.Lock()
 	defer mu.Unlock()
 	var log []interface{}
 	displayLog = &log
 	defer func() { displayLog = nil }()
-	z := exec.NewInterpreter("verif").SetExternalLibs(Libs())
+	z := exec.NewInterpreter("verif").SetExternalLibs(libs)
 	if inputs == nil {
 		inputs = r.ElementMap{}
 	}
